@@ -11,9 +11,11 @@ package main
 // a serial replay of the same handlers in the order in which they took effect.
 
 import (
+	"context"
 	"fmt"
 	"net"
 	"reflect"
+	ctrl "sigs.k8s.io/controller-runtime"
 	"sync"
 	"testing"
 	"time"
@@ -242,14 +244,16 @@ func runC20(c c20Case, tr *vw.Trace) *vw.Violation {
 			yield(i + 3)
 		}
 	}()
-	go func() { // node reconciler
+	go func() { // node reconciler: the real NodeReconciler reads the node from its client and calls the wired handler
 		defer wg.Done()
+		nodeStore := vw.NewWorld() // only this goroutine touches it
+		nodeRec := &controllers.NodeReconciler{Client: nodeStore, Logger: log.NewNopLogger(), Handler: w.h.Node, NodeName: spkMe,
+			ForceReload: func() { reloadReq <- struct{}{} }}
 		for i := range c.Nodes {
 			curNode = i
 			n := c.Nodes[i].CR()
-			if w.h.Node(log.NewNopLogger(), &n) == controllers.SyncStateReprocessAll {
-				reloadReq <- struct{}{}
-			}
+			nodeStore.Nodes = []*v1.Node{&n}
+			_, _ = nodeRec.Reconcile(context.Background(), ctrl.Request{NamespacedName: types.NamespacedName{Name: n.Name}})
 			yield(i + 5)
 		}
 	}()
